@@ -5,6 +5,7 @@ import (
 	"errors"
 	"fmt"
 	"log/slog"
+	"math"
 )
 
 type ByteSize int64
@@ -15,6 +16,7 @@ var (
 	ErrUnknownUnit    = errors.New("unknown unit")
 	ErrEmptyString    = errors.New("empty string")
 	ErrInvalidFormat  = errors.New("invalid format")
+	ErrOverflow       = errors.New("value does not fit in 64 bits")
 )
 
 const (
@@ -44,6 +46,7 @@ func Parse(s string) (ByteSize, error) {
 
 	num := int64(0)
 	multiplier := int64(1)
+	foundDigit := false
 	foundUnit := false
 
 	for _, r := range s {
@@ -53,7 +56,11 @@ func Parse(s string) (ByteSize, error) {
 			}
 
 			digit := int64(r - '0')
+			if num > (math.MaxInt64-digit)/10 {
+				return 0, fmt.Errorf("%w: %s", ErrOverflow, s)
+			}
 			num = num*10 + digit
+			foundDigit = true
 		} else {
 			if foundUnit {
 				return 0, fmt.Errorf("%w in: %s", ErrMultipleUnits, s)
@@ -66,8 +73,14 @@ func Parse(s string) (ByteSize, error) {
 
 			multiplier = unit
 			foundUnit = true
-			break
 		}
+	}
+
+	if !foundDigit || !foundUnit {
+		return 0, fmt.Errorf("%w: expected digits followed by a unit in: %s", ErrInvalidFormat, s)
+	}
+	if num > math.MaxInt64/multiplier {
+		return 0, fmt.Errorf("%w: %s", ErrOverflow, s)
 	}
 
 	return ByteSize(num * multiplier), nil
@@ -125,6 +138,11 @@ func (b ByteSize) FindLargestFittingUnit() rune {
 		}
 
 		if unitSize < largestUnitSize {
+			continue
+		}
+
+		if int64(b)%unitSize != 0 {
+			// The size would not read back to the same value in this unit
 			continue
 		}
 
